@@ -110,8 +110,23 @@ theorem write_rel (s : St) (i : Id) (n : Nat) (o : Outcome) : Rel s (write s i n
     | exact addClosing_rel _ _
     | exact Rel.trans (b := { s with clients := _ }) ⟨rfl, fun _ h => h, fun h => h, fun h => h⟩ (pollSet_rel _ _ _)
 
+theorem mkPair_rel (s : St) (i : Id) : Rel s (mkPair s i) := by
+  unfold mkPair; dsimp only; split
+  · exact Rel.trans (b := { s with clients := _, used := _, order := _ }) ⟨rfl, fun _ h => h, fun h => h, fun h => h⟩ (pollSet_rel _ _ _)
+  · exact Rel.refl s
+
+theorem mkListener_rel (s : St) (i : Id) : Rel s (mkListener s i) := by
+  unfold mkListener; dsimp only; split
+  · exact Rel.trans (b := { s with listeners := _, used := _, order := _ }) ⟨rfl, fun _ h => h, fun h => h, fun h => h⟩ (pollSet_rel _ _ _)
+  · exact Rel.refl s
+
+theorem mkEst_rel (s : St) (i : Id) : Rel s (mkEst s i) := by
+  unfold mkEst; dsimp only; split
+  · exact Rel.trans (b := { s with ests := _, used := _, order := _ }) ⟨rfl, fun _ h => h, fun h => h, fun h => h⟩ (pollSet_rel _ _ _)
+  · exact Rel.refl s
+
 theorem applyAct_rel (s : St) (nc : Option Id) (a : Act) : Rel s (applyAct s nc a) := by
-  cases a <;> unfold applyAct
+  cases a <;> simp only [applyAct]
   case mkTimer i iv => exact mkTimer_rel s i iv
   case rmTimer i => exact rmTimer_rel s i
   case rmClient i => exact rmClient_rel s i
@@ -124,6 +139,9 @@ theorem applyAct_rel (s : St) (nc : Option Id) (a : Act) : Rel s (applyAct s nc 
   case resume i => exact resume_rel s i
   case read i => exact read_rel s i
   case write i n o => exact write_rel s i n o
+  case mkPair i => exact mkPair_rel s i
+  case mkListener i => exact mkListener_rel s i
+  case mkEst i => exact mkEst_rel s i
 
 theorem runActs_rel (s : St) (nc : Option Id) (acts : List Act) : Rel s (runActs s nc acts) := by
   induction acts generalizing s with
@@ -206,29 +224,29 @@ theorem inv_move (s : St) (m : Move) (h : Inv s) : Inv (move s m) := by
   cases m <;> simp only [move]
   case act a => exact ⟨applyAct_invT s none a ht, applyAct_invU s none a hu, invS_applyAct s none a hs⟩
   case env e => exact ⟨ht.same (envStep_sameT s e), envStep_invU s e hu, invS_envStep s e hs⟩
-  case mkPair i => exact ⟨ht.same (mkPair_sameT s i), mkPair_invU s i hu, invS_mkPair s i hs⟩
-  case mkListener i => exact ⟨ht.same (mkListener_sameT s i), mkListener_invU s i hu, invS_mkListener s i hs⟩
-  case mkEst i => exact ⟨ht.same (mkEst_sameT s i), mkEst_invU s i hu, invS_mkEst s i hs⟩
+  case mkPair i => exact ⟨ht.same (mkPair_sameT s i), mkPair_invU s i hu, invS_mkPair s none i hs⟩
+  case mkListener i => exact ⟨ht.same (mkListener_sameT s i), mkListener_invU s i hu, invS_mkListener s none i hs⟩
+  case mkEst i => exact ⟨ht.same (mkEst_sameT s i), mkEst_invU s i hu, invS_mkEst s none i hs⟩
   case script i k acts =>
     exact ⟨ht.same ⟨rfl, rfl, fun _ h => h⟩, ⟨hu.auto1, hu.auto2, hu.liveUsed, hu.gone, hu.disj⟩,
-      ⟨hs.selSub, hs.kind, hs.hasCb, hs.closing, hs.ncLive, hs.noFault⟩⟩
+      ⟨hs.selSub, hs.kind, hs.hasCb, hs.closing, hs.ncLive, hs.noFault, hs.ncBig⟩⟩
   case enter =>
     unfold enterRun
     split
     · exact ⟨ht.same ⟨rfl, rfl, fun _ h => h⟩, ⟨hu.auto1, hu.auto2, hu.liveUsed, hu.gone, hu.disj⟩,
-        ⟨hs.selSub, hs.kind, hs.hasCb, hs.closing, hs.ncLive, hs.noFault⟩⟩
+        ⟨hs.selSub, hs.kind, hs.hasCb, hs.closing, hs.ncLive, hs.noFault, hs.ncBig⟩⟩
     · exact ⟨ht, hu, hs⟩
   case intrBegin =>
     split
     · exact ⟨ht, hu, hs⟩
     · exact ⟨ht.same ⟨rfl, rfl, fun _ h => h⟩, ⟨hu.auto1, hu.auto2, hu.liveUsed, hu.gone, hu.disj⟩,
-        ⟨hs.selSub, hs.kind, hs.hasCb, hs.closing, hs.ncLive, hs.noFault⟩⟩
+        ⟨hs.selSub, hs.kind, hs.hasCb, hs.closing, hs.ncLive, hs.noFault, hs.ncBig⟩⟩
   case intrEnd =>
     split
     · exact ⟨ht, hu, hs⟩
     · exact ⟨ht.same ⟨rfl, rfl, fun _ h => h⟩, ⟨hu.auto1, hu.auto2, hu.liveUsed, hu.gone, hu.disj⟩,
-        ⟨hs.selSub, hs.kind, hs.hasCb, hs.closing, hs.ncLive, hs.noFault⟩⟩
-  case step inp o => exact ⟨step_invT s inp o ht, step_invU s inp o hu, step_invS s inp o ht hs⟩
+        ⟨hs.selSub, hs.kind, hs.hasCb, hs.closing, hs.ncLive, hs.noFault, hs.ncBig⟩⟩
+  case step inp o => exact ⟨step_invT s inp o ht, step_invU s inp o hu, step_invS s inp o ht hu hs⟩
 
 theorem inv_runMoves (s : St) (ms : List Move) (h : Inv s) : Inv (runMoves s ms) := by
   induction ms generalizing s with
